@@ -9,7 +9,7 @@ CHECKS = {
    level="model_checking",
    text="Every operation sequence over {ChainBuffer k bytes, ChainWrite k-byte slice, Flush} up to the stated length, with every sink failure budget, is executed symbolically on the real Writer/net.Buffers code with all byte contents symbolic; the delivered bytes are asserted equal to the concatenation model after every flush. Exhaustive over histories within the bound, for all byte values.",
    ref="DESIGN.md §4 C14",
-   note="bounds: ops<=3 (quick) / 4 (thorough), 0..3 bytes per op, sink budget -1..4; engine fidelity checked by native witness replays; append growth policy fixed (double); preemption not modelled (Writer is single-owner)"),
+   note="bounds: ops<=3 (quick) / 4 (thorough), 0..3 bytes per op, sink budget -1..4; both append growth policies (double / exact); WriteBlock+Flush == EncodeBlock and WriteColumn == EncodeColumn for all C01 shapes; engine fidelity checked by native witness replays; append growth policy fixed (double); preemption not modelled (Writer is single-owner)"),
  "C17": dict(
    level="model_checking",
    text="Each message's real EncodeAware/DecodeAware pair is executed symbolically with the protocol revision as ONE symbolic int (so every revision, hence both sides of every threshold, is covered by the version-comparison forks) and all field values symbolic; per path the solver decides (a) encoded bytes == bytes of an independent reference encoder with its own threshold table, (b) decode(encode(x)) == x with the fields absent at that revision zero, (c) the reader is exactly exhausted.",
@@ -20,6 +20,16 @@ CHECKS = {
    text="For each column type (31 generated fixed-width codecs, String, Bytes, Bool, UUID, FixedString(N), Nothing, Point, Interval, Enum8/16, DateTime, DateTime64(p)) and for Array/Nullable/LowCardinality/Map/Tuple compositions up to depth 2, the real EncodeBlock -> DecodeBlock path is executed symbolically with all cell values, string bytes, pre-existing buffer bytes and the protocol revision symbolic; the solver decides: prefix untouched, bytes independent of the buffer's prior content, typed decode == appended values, inferred decode (Results.Auto) == same name/type/values, reader exhausted. Both the default (unsafe) and the purego build are encoded for the leaf codecs.",
    ref="DESIGN.md §4 C01",
    note="bounds: rows<=2 (quick)/3-4 (thorough), inner arrays/maps <=2, strings <=1-2 bytes, buffer prefix in {0,3,8} bytes, depth<=2; outside: dictionaries >3 entries (key-width switches), ColMap.Append(map) iteration order, JSON, non-UTC zones; Array(Array(T)), FixedString(N) with N not a power of two, Bytes, Point and Map are not inferable by the library and are checked typed only; reflect calls in ColAuto.Infer go through a method-set model; bswap.swap64 (asm) is modelled natively"),
+ "C07": dict(
+   level="model_checking",
+   text="For every block shape of C01 (all leaf codecs, compositions to depth 2) and every protocol message of C17 the library's own encoder output is cut at EVERY position 0..len-1 (enumerated) with symbolic contents and revision, and the real decoder (typed and inferred) is executed on the prefix; the assertion is a non-nil error on every path.",
+   ref="DESIGN.md §4 C07",
+   note="bounds: rows<=1-2, strings<=1 byte, inner<=1; messages with one-byte varints except one 2-byte field; plain streams here, compressed frames cut in C05; the cut is applied to a bytes.Reader (segmentation is C08)"),
+ "C15": dict(
+   level="translation_validation",
+   text="The same harness is executed in two SSA programs built from /repo (tags verif and verif,purego) on the same symbolic inputs, sharing one term store and solver session; for each of the 33 two-variant codecs x {EncodeColumn after 0/3/8 arbitrary bytes, WriteColumn+Flush, DecodeColumn of arbitrary bytes (complete or one byte short) into a fresh or reset column} every emitted value (bytes, error class, row count, decoded rows) is asserted equal by the solver; divergences are replayed in both native builds.",
+   ref="DESIGN.md §4 C15",
+   note="bounds: rows<=2 (quick)/3; all element values and input bytes symbolic (so 8/16-bit element types are covered exhaustively per row); amd64 little-endian layout for the unsafe build; bswap.swap64 asm modelled natively in both programs"),
 }
 
 NA = {
